@@ -458,6 +458,88 @@ def heartbeat_timeout_more():
     return out, (r["resets"], res["resets"])
 
 
+def stale_read_loop_scenarios():
+    """A read loop that is suspended (slow subscriber) while its connection is replaced - by a reset from elsewhere, or by
+    close() + open_socket() of a client that is shut down and initialised again - and then resumes."""
+    R, acs, gs = _at4()
+    _, hb, pb, crc = _frame(R, acs.AcStatusRequest())
+    good = hb + pb + crc
+    out = {}
+    own = own_reset = True
+    for how in ("reset", "close-reopen"):
+        async def main(loop, net, how=how):
+            S, sock = _sock(loop, R)
+            got = []
+
+            async def on_msg(h, m):
+                got.append(loop.time())
+                if len(got) == 1:
+                    await asyncio.sleep(0.3)       # a slow subscriber: the read loop is suspended in the delivery
+            sock.subscribe_on_message_received(on_msg)
+            unhandled = []
+            loop.set_exception_handler(lambda l, ctx: unhandled.append(ctx.get("exception") or ctx.get("message")))
+            await sock.open_socket()
+            await asyncio.sleep(0.1)
+            net.readers[net.opened[-1]].feed_data(good)
+            await asyncio.sleep(0.05)              # the first frame is being delivered
+            if how == "reset":
+                await sock.reset_connection()       # e.g. the heartbeat timeout, or a failed write of another task
+            else:
+                await sock.close()
+                await sock.open_socket()
+            await asyncio.sleep(0.1)               # the next connection is in place, with its own read loop
+            n_conn = len(net.opened)
+            await asyncio.sleep(1.0)               # the old loop has resumed by now
+            if sock.is_connected:
+                net.readers[net.opened[-1]].feed_data(good)
+            await asyncio.sleep(5.0)
+            r = (n_conn, len(net.opened), sock.is_connected, len(got), unhandled)
+            await sock.close()
+            return r
+        try:
+            (n_conn, n_conn_later, connected, n_got, unhandled), net, _ = vloop.run(main)
+            # nothing disturbs the second connection, its frame is delivered exactly once
+            own = own and n_conn == 2 and n_conn_later == 2 and connected and n_got == 2 and not unhandled
+        except KeyboardInterrupt:
+            raise
+        except BaseException:  # noqa: BLE001
+            own = False
+    out["a read loop never reads from a connection it was not started for (the socket's reader was replaced while the loop was suspended)"] = own
+
+    # the old connection ends (EOF / transport error reported late) after the next one is in place
+    for exc in (None, ConnectionResetError("late"), RuntimeError("late")):
+        async def late(loop, net, exc=exc):
+            S, sock = _sock(loop, R)
+            sock.is_open = sock.is_connected = True
+            r0 = asyncio.StreamReader()
+            sock._reader, sock._writer = r0, vloop.FakeWriter(net, "old")
+            resets = []
+
+            async def reset():
+                resets.append(loop.time())
+            sock.reset_connection = reset
+            t = loop.create_task(sock._read())
+            await asyncio.sleep(0.1)
+            sock._reader, sock._writer = asyncio.StreamReader(), vloop.FakeWriter(net, "new")    # replaced meanwhile
+            if exc is None:
+                r0.feed_eof()
+            else:
+                r0.set_exception(exc)
+            await asyncio.sleep(1.0)
+            done = t.done()
+            t.cancel()
+            return resets, done
+        try:
+            (resets, done), _, _ = vloop.run(late)
+            own_reset = own_reset and resets == [] and done
+        except KeyboardInterrupt:
+            raise
+        except BaseException:  # noqa: BLE001
+            own_reset = False
+    out["a read loop whose connection was replaced meanwhile does not reset the connection that replaced it"] = own_reset
+    return out
+
+
 def oblige_from(h, fns, names=None, prefix=""):
     """Native reading of an obligation set: run the schedules and state the obligations (of `names`, if given) they evaluate."""
     for fn in fns:
